@@ -263,3 +263,109 @@ def tuple_field_src(f, op):
     return op
 
 
+
+
+# ---------------------------------------------------------------------------------------
+# fold recognition: explicit loops and the equivalent iterator adaptors
+
+def closure_body_of(facts, body, op):
+    """body of the closure literal passed as `op` (None when it is not a literal closure)"""
+    p = op_place(op)
+    if p is None:
+        return None
+    d = single_def(body, p["l"])
+    if d and d[1] == "assign" and d[2]["rv"]["k"] == "agg" and d[2]["rv"].get("agg") == "closure":
+        return facts.body(d[2]["rv"]["def"])
+    return None
+
+
+def _proj_field(body, op, depth=0):
+    """(root param index, last field name/idx) of a projection chain `(*_k).f` behind op"""
+    p = op_place(op)
+    if p is None or depth > 6:
+        return (None, None)
+    fs = [e for e in p["p"] if isinstance(e, dict) and "f" in e]
+    fld = (fs[-1].get("n") if fs[-1].get("n") is not None else str(fs[-1]["f"])) if fs else None
+    l = p["l"]
+    if 1 <= l <= body.arg_count and not body.defs.get(l):
+        return (l, fld)
+    d = single_def(body, l)
+    if d and d[1] == "assign" and d[2]["rv"]["k"] in ("use",):
+        r, f2 = _proj_field(body, d[2]["rv"]["op"], depth + 1)
+        return (r, fld if fld is not None else f2)
+    if d and d[1] == "assign" and d[2]["rv"]["k"] == "ref":
+        r, f2 = _proj_field(body, {"copy": d[2]["rv"]["place"]}, depth + 1)
+        return (r, fld if fld is not None else f2)
+    return (None, fld)
+
+
+def closure_projection(cb):
+    """closure `|x| x.field` / `|x| *x` : returns ('field', name) / ('deref', None) / None"""
+    if cb is None or cb.calls:
+        return None
+    rets = return_values(cb)
+    if len(rets) != 1 or rets[0][1]["rv"]["k"] != "use":
+        return None
+    root, fld = _proj_field(cb, rets[0][1]["rv"]["op"])
+    if root == 2:
+        return ("field", fld) if fld is not None else ("deref", None)
+    return None
+
+
+def closure_add(cb):
+    """closure `|acc, x| acc + x(.field)`: returns ('field', name)/('deref', None)/None"""
+    if cb is None or cb.calls:
+        return None
+    adds = [st for bb in cb.reachable_blocks() for st in cb.blocks[bb]["stmts"]
+            if st["k"] == "assign" and st["rv"]["k"] == "bin"]
+    if len(adds) != 1 or adds[0]["rv"]["op"] not in ("Add", "AddWithOverflow"):
+        return None
+    ra, fa = _proj_field(cb, adds[0]["rv"]["a"])
+    rb, fb = _proj_field(cb, adds[0]["rv"]["b"])
+    if ra == 2 and fa is None and rb == 3:
+        return ("field", fb) if fb is not None else ("deref", None)
+    return None
+
+
+def iterator_fold(facts, body, op):
+    """Recognise the value behind `op` as an iterator-adaptor fold over a whole slice parameter.
+    Returns dict(kind='sum'|'max'|'any', field=…, root=('param',k)|('upvar',…), init=int|None) or None."""
+    calls, root = call_chain(body, op)
+    if not calls:
+        return None
+    names = [c.name.split("::")[-1] for c in calls]
+    plain = {"iter", "into_iter", "deref", "as_slice"}
+    head = calls[0]
+    if names[0] == "fold" and all(n in plain for n in names[1:]):
+        k = closure_add(closure_body_of(facts, body, head.args[2])) if len(head.args) > 2 else None
+        init = (op_const(head.args[1]) or {}).get("int")
+        if k is not None:
+            return {"kind": "sum", "field": k[1], "root": root, "init": init, "call": head}
+    if names[0] == "sum" and len(names) >= 2:
+        rest = names[1:]
+        fld = None
+        if rest[0] == "map":
+            k = closure_projection(closure_body_of(facts, body, calls[1].args[1]))
+            if k is None:
+                return None
+            fld = k[1]
+            rest = rest[1:]
+        if all(n in plain | {"copied", "cloned"} for n in rest):
+            return {"kind": "sum", "field": fld, "root": root, "init": 0, "call": head}
+    if names[0] == "any" and all(n in plain for n in names[1:]):
+        k = closure_projection(closure_body_of(facts, body, head.args[1])) if len(head.args) > 1 else None
+        if k is not None:
+            return {"kind": "any", "field": k[1], "root": root, "init": 0, "call": head}
+    if names[:2] == ["unwrap_or", "max"] and len(names) >= 3:
+        init = (op_const(head.args[1]) or {}).get("int")
+        rest = names[2:]
+        fld = None
+        if rest[0] == "map":
+            k = closure_projection(closure_body_of(facts, body, calls[2].args[1]))
+            if k is None:
+                return None
+            fld = k[1]
+            rest = rest[1:]
+        if all(n in plain | {"copied", "cloned"} for n in rest):
+            return {"kind": "max", "field": fld, "root": root, "init": init, "call": head}
+    return None
